@@ -45,7 +45,7 @@ def ref_chunked_decode(data):
         if e < 0: return None
         line = data[off:e]
         if len(line) + 2 > 4096: return None          # the reader's line buffer is 4 KB: longer size lines are outside the valid class
-        m = re.match(rb'^([0-9a-fA-F]{1,15})(;[^\r\n]*)?$', line)
+        m = re.match(rb'^([0-9a-fA-F]{1,15})(;[^\r\n]*)?\Z', line)
         if not m: return None
         n = int(m.group(1), 16)
         off = e + 2
@@ -67,16 +67,16 @@ def ref_parse(kind, reqverb, data):
     head = data[:t].split(CRLF)
     r = dict(body_off=t + 4)
     if kind == 'Q':
-        m = re.match(rb'^([A-Z]+) ([!-~]+) HTTP/(\d\.\d)$', head[0])
+        m = re.match(rb'^([A-Z]+) ([!-~]+) HTTP/(\d\.\d)\Z', head[0])
         if not m or m.group(1).decode() not in VERBS[1:]: return None
         r.update(verb=VERBS.index(m.group(1).decode()), target=m.group(2), version=m.group(3), code=0)
     else:
-        m = re.match(rb'^HTTP/(\d\.\d) ([1-9]\d\d) ([ -~]*)$', head[0])
+        m = re.match(rb'^HTTP/(\d\.\d) ([1-9]\d\d) ([ -~]*)\Z', head[0])
         if not m: return None
         r.update(verb=reqverb, target=b'', version=m.group(1), code=int(m.group(2)), reason=m.group(3))
     hs = []
     for l in head[1:]:
-        m = re.match(rb'^(' + TOKEN + rb'):( *)([!-~]([ -~]*[!-~])?)?$', l)
+        m = re.match(rb'^(' + TOKEN + rb'):( *)([!-~]([ -~]*[!-~])?)?\Z', l)
         if not m: return None
         hs.append((m.group(1), m.group(3) or b''))
     r['headers'] = hs
@@ -95,7 +95,7 @@ def ref_parse(kind, reqverb, data):
     elif r['verb'] == 3:
         r.update(framing='none', payload=b'', consumed=t + 4)
     elif b'content-length' in low:
-        if not re.match(rb'^\d{1,18}$', g(b'content-length')): return None
+        if not re.match(rb'^\d{1,18}\Z', g(b'content-length')): return None
         n = int(g(b'content-length'))
         if len(rest) < n: return None
         r.update(framing='length', payload=rest[:n], consumed=t + 4 + n)
